@@ -274,6 +274,7 @@ type vC13Gated struct {
 	behave int
 	gate   chan struct{}
 	quit   chan struct{}
+	tcp    net.Listener // read-error authorities only
 }
 
 func vC13StartGated(behave int, order *atomic.Int64) (*vC13Gated, error) {
@@ -282,6 +283,35 @@ func vC13StartGated(behave int, order *atomic.Int64) (*vC13Gated, error) {
 		return nil, err
 	}
 	a := &vC13Gated{pc: pc, behave: behave, gate: make(chan struct{}), quit: make(chan struct{})}
+	if behave == vC13Silent {
+		// The exchange's last retry goes over TCP to the same port.  Nothing of ours listens there,
+		// but on a shared machine some other process' server might: own the TCP port too and hang up
+		// on whoever connects, so that the retry ends in a read error whatever else runs here.
+		for try := 0; ; try++ {
+			ln, lerr := net.Listen("tcp", pc.LocalAddr().String())
+			if lerr == nil {
+				a.tcp = ln
+				go func() {
+					for {
+						c, aerr := ln.Accept()
+						if aerr != nil {
+							return
+						}
+						_ = c.Close()
+					}
+				}()
+				break
+			}
+			_ = pc.Close()
+			if try == 20 {
+				return nil, lerr
+			}
+			if pc, err = net.ListenPacket("udp", "127.0.0.1:0"); err != nil {
+				return nil, err
+			}
+			a.pc = pc
+		}
+	}
 	a.srv = &dns.Server{Net: "udp", PacketConn: pc, Handler: dns.HandlerFunc(func(w dns.ResponseWriter, req *dns.Msg) {
 		if len(req.Question) == 0 {
 			return
@@ -406,6 +436,9 @@ func vC13GatedFanout(zone string, behaviours []int, prio []int, waitAll bool, ca
 			close(a.quit)
 			_ = a.srv.Shutdown()
 			_ = a.pc.Close()
+			if a.tcp != nil {
+				_ = a.tcp.Close()
+			}
 		}
 	}()
 	var list []*authority.Server
